@@ -1644,3 +1644,29 @@ PROPS["C11"] = dict(
              "see the hook)"],
     assumptions=ENGINE_ASSUMPTIONS + ["the streaming converter fed the whole input in one call with a worst-case-sized sink is the yardstick (C01/C02/C03/C10)"],
 )
+
+
+# ----------------------------------------------------------------------------------------------- bounds added after the seeded-change rounds
+EXTRA_BOUNDS = {
+    "C01": "ISO-2022-JP also: escape prefix + one symbolic byte + a second concrete escape + symbolic tail, in every state.",
+    "C02": "Also: the same chunking behind BOM removal / sniffing with the first byte in the shard of the BOM leads (11 decoder families); regime E = the first two calls at a "
+           "symbolic destination of 0..minimum-1 units, then a large one (panics tolerated below the documented minimum, differing results not); lead bytes with their own "
+           "state-machine arm always among the shards.",
+    "C03": "Also: astral characters whose low 16 bits are a mappable BMP character, in every ISO-2022-JP state; single-byte encoders with the symbolic character after / between "
+           "mapped non-ASCII neighbours.",
+    "C04": "Also: the edges of the surrogate ranges read from UTF-16 at capacities min..min+2; U+0000..00FF after a mapped non-ASCII character; the Cyrillic window.",
+    "C05": "Also the long-ASCII-run and BOM-front-end histories inherited from C08.",
+    "C06": "Also: C08's histories with a symbolic destination of 0..minimum-1 units (a panic is tolerated there, an out-of-bounds access or written > dst.len() is not); "
+           "streaming conversions of 16 / 33 ASCII units + symbolic units against every capacity, also on the debug-assertions build; histories behind the BOM front end.",
+    "C07": "Also the Cyrillic window (two-byte UTF-8) for every CJK encoder and the lead bytes with their own state-machine arm.",
+    "C08": "Also: complete four-byte UTF-8 sequences behind an ASCII byte; histories behind BOM removal / sniffing; streaming conversions of 16 / 33 ASCII units + n<=2 symbolic "
+           "units (+ 0 / 2 ASCII) against every destination capacity from the minimum to the input length + 3, decoders and encoders, compared with the reference converters.",
+    "C09": "Also: source form and capacity of the replacing run varied independently; histories behind the BOM front end.",
+    "C10": "Also: the first two calls at a symbolic destination of 0..minimum-1 units (no progress possible, a panic tolerated), then a large one: whatever was withheld must still be delivered once.",
+    "C11": "The window at the very start is never thinned out for the BOM-handling entry points; UTF-16BE included.",
+    "C12": "Also: astral characters aliasing mappable BMP characters after ASCII / Roman / kana / kanji; window U+2100.. for the JIS encoders.",
+    "C15": "Also: a concrete two-, three- or four-byte character (BMP unit / surrogate pair) between the filler and n<=4 symbolic units.",
+    "C18": "Also: histories behind the BOM front end; streaming conversions of 16 / 33 ASCII units against every capacity with a symbolic pre-fill, compared with the reference.",
+    "C19": "Also: the mid-loop query with the stream cut at a symbolic point, behind BOM sniffing / removal, after the first Malformed or OutputFull return at the documented minimum "
+           "capacity; every ISO-2022-JP shift state settled by one more symbolic byte.",
+}
